@@ -133,11 +133,22 @@ pub fn protocol_like(r: &mut Rng, n: usize) -> Vec<u8> {
     let depth = *r.pick(&[0usize, 1, 1, 1, 2, 2, 3]);
     let mut v = Vec::with_capacity(n);
     let mut left = n;
+    if left >= 9 && r.chance(1, 3) {
+        // PPP framing in front: address/control ff 03 (sometimes compressed away) + protocol
+        // (LCP c021, PAP c023, CHAP c223, IPCP 8021)
+        if r.chance(2, 3) {
+            v.extend_from_slice(&[0xff, 0x03]);
+            left -= 2;
+        }
+        let proto: [u8; 2] = *r.pick(&[[0xc0, 0x21], [0xc0, 0x21], [0xc0, 0x23], [0xc2, 0x23], [0x80, 0x21]]);
+        v.extend_from_slice(&proto);
+        left -= 2;
+    }
     for _ in 0..depth {
         if left < 5 {
             break;
         }
-        let code = *r.pick(&[1u8, 1, 1, 2, 3, 4, 0]);
+        let code = *r.pick(&[1u8, 1, 1, 2, 3, 4, 9, 10, 0]);
         let len = match r.below(8) {
             0 => left.wrapping_sub(1),
             1 => left + 1,
@@ -310,7 +321,7 @@ pub fn data(r: &mut Rng, flags: Option<u8>, max_data: usize) -> SData {
         2 => r.range(1, 8) as usize,
         _ => r.range(1, max_data.max(1) as u64) as usize,
     };
-    let data = r.bytes(n);
+    let data = if r.chance(1, 5) { protocol_like(r, n) } else { r.bytes(n) };
     let offset = if f & 4 != 0 {
         Some(match r.below(4) {
             0 => 0,
@@ -339,6 +350,15 @@ pub fn data(r: &mut Rng, flags: Option<u8>, max_data: usize) -> SData {
 
 pub fn secret(r: &mut Rng) -> Vec<u8> {
     const L: [usize; 14] = [0, 1, 15, 16, 17, 47, 48, 49, 50, 55, 56, 57, 58, 64];
-    let n = if r.chance(3, 4) { *r.pick(&L) } else { r.range(0, 200) as usize };
+    let n = match r.below(16) {
+        0..=10 => *r.pick(&L),
+        // around every power of two from 2^6 to 2^12, where fixed-size scratch buffers end
+        11 => {
+            let k = r.range(6, 12) as u32;
+            ((1usize << k) + 8).saturating_sub(r.range(0, 40) as usize)
+        }
+        12 => r.range(1000, 1030) as usize,
+        _ => r.range(0, 200) as usize,
+    };
     r.bytes(n)
 }
